@@ -19,7 +19,7 @@ impl SerialChannelTask {
 //@fn rodbus/src/serial/client.rs | SerialChannelTask::new | tags=C06,C12,C13,C20
 //@|    ensures r.wf(), r.client_loop.reader.parser is Rtu, r.client_loop.reader.logical().len() == 0,
 //@|        r.client_loop.decode == decode, !r.client_loop.enabled, r.client_loop.rx == rx,
-//@|        r.client_loop.timeout_counter.limit() is None, r.client_loop.tx_id.v() == 0,
+//@|        r.client_loop.timeout_counter.limit() is None,
 //@|        r.retry == retry, r.listener == listener, r.serial_settings == serial_settings, r.path@ == path@,
 
 // [C13] serial channel: Disabled first, Shutdown exactly once and last
